@@ -40,4 +40,5 @@ def build(ub, algebra_text):
     ub.emit_fn(SIMP, "new", "verify", impl="impl<T: ExprMap<Option<ExprRef>>> Simplifier<T>", spec_key="Simplifier::new", cfg={"receivers": {}, "no_canary": True})
     ub.emit_fn(SIMP, "simplify", "verify", impl="impl<T: ExprMap<Option<ExprRef>>> Simplifier<T>", spec_key="Simplifier::simplify", cfg={"receivers": {}})
     ub.emit_fn(SIMP, "simplify_single_expression", "verify", cfg={"receivers": {}})
+    ub.pin_rest_of_file(TRANS)   # frame: the other functions of the file (DESIGN 11.12)
     ub.out("} // verus!\nfn main() {}\n")
